@@ -9,8 +9,10 @@
    POM interpolation: terminates, no panic, no error ............ C15_interp_terminates, C15_interp_no_panic, C15_interp_total
    Graph.Canon: no panic (root kept), BFS fuel suffices .......... C13_total
    npm.Resolve: the three nil dereferences are unreachable ....... C06_no_panic
-   pypi buildGraph on a returned state ........................... C08_graph_total *)
-From DepsDev Require Properties.C01_maven Properties.C13 Properties.C15 Properties.C16 Properties.C06 Properties.C08.
+   pypi buildGraph on a returned state ........................... C08_graph_total
+   semver.PyPI.Parse: a value or an error for every byte string .. C01_pypi_parse_total
+   semver.NuGet/.. comparison of parsed versions never fails ..... C01_family (compare = Ok) *)
+From DepsDev Require Properties.C01_pypi Properties.C01_maven Properties.C13 Properties.C15 Properties.C16 Properties.C06 Properties.C08.
 
 Definition C04_maven_compare_total := Properties.C01_maven.C01_maven_compare_total.
 Definition C04_maven_no_panic := Properties.C01_maven.C01_maven_no_panic.
@@ -21,8 +23,10 @@ Definition C04_interp_terminates := Properties.C15.C15_interp_terminates.
 Definition C04_interp_no_panic := Properties.C15.C15_interp_no_panic.
 Definition C04_interp_total := Properties.C15.C15_interp_total.
 Definition C04_canon_total := Properties.C13.C13_total.
+Definition C04_pypi_parse_total := Properties.C01_pypi.C01_pypi_parse_total.
 Check C04_maven_compare_total. Check C04_marker_eval_no_panic. Check C04_interp_total. Check C04_canon_total.
 Print Assumptions C04_maven_compare_total.
 Print Assumptions C04_marker_eval_no_panic.
 Print Assumptions C04_interp_total.
 Print Assumptions C04_canon_total.
+Print Assumptions C04_pypi_parse_total.
